@@ -36,6 +36,7 @@ def dispatch (line : String) : Verdict :=
   | "C15" :: args => c15 args r
   | "C16" :: args => c16 args r
   | "C20" :: args => handVerdict "C20" args r
+  | "C08" :: "resp" :: args => c19 ("resp" :: args) r
   | "C08" :: args => handVerdict "C08" args r
   | "C09" :: args => handVerdict "C09" args r
   | "C10" :: args => handVerdict "C10" args r
